@@ -33,7 +33,7 @@ ASSUMPTIONS = [
     "where a report sits in the task tree is C02's business and not asserted here",
 ]
 
-DEST_EXC = [ValueError, RuntimeError, OSError, KeyError, P.BadStrError, P.AppError, ValueError, P.NoModuleError]
+DEST_EXC = [ValueError, RuntimeError, OSError, KeyError, P.BadStrError, P.AppError, ValueError, P.NoModuleError, P.FalsyError, P.EmptyErrors]
 REPORT = "eliot:destination_failure"
 
 
